@@ -746,10 +746,10 @@ class LowerToIRVisitor(Visitor.DefaultVisitor):
     def v_AssignmentExpression(self, expr, ctx):
         value = self.v_Visit(expr.GetRight(), ctx)
         ctx.BeginAssignment(value)
-        destination = self.v_Visit(expr.GetLeft(), ctx)
+        self.v_Visit(expr.GetLeft(), ctx)
         ctx.EndAssignment()
 
-        return destination
+        return value
 
     def v_ArrayExpression(self, expr, ctx):
         array = self.v_Visit(expr.GetParent(), ctx)
